@@ -156,14 +156,25 @@ theorem C06_offset_minus_offset (R : Registry) (m : Mode) (a b c : Qty) (s0 : St
 
 /-! ### floor division, modulo and divmod follow the rule of true division (F58) -/
 
-/-- without autoconvert an operand on an offset scale is refused by `//`, `%` and `divmod` -/
+/-- without autoconvert an operand on an offset scale is refused by `//`, `%` and `divmod` (operands of one dimensionality;
+    operands of different dimensionality meet the DimensionalityError first, next theorem) -/
 theorem C06_floordiv_refuses_offset (R : Registry) (m : Mode) (a : Qty) (b : Operand)
-    (h : R.operandsMult a b = false) (hm : m.autoconvert = false) :
+    (h : R.operandsMult a b = false) (hd : R.dimsDiffer a b = false) (hm : m.autoconvert = false) :
     R.floordiv m a b = .error .offsetCalc ∧ R.mod m a b = .error .offsetCalc ∧
       R.divmod m a b = .error .offsetCalc := by
   have ho : R.offsetFree m a b = .error .offsetCalc := by
     unfold Registry.offsetFree
-    rw [if_neg (by rw [h]; decide), hm, if_pos (by decide)]
+    rw [if_neg (by rw [h]; decide), if_neg (by rw [hd]; decide), hm, if_pos (by decide)]
+  simp only [Registry.floordiv, Registry.mod, Registry.divmod, ho, and_self]
+
+/-- operands of different dimensionality with one on an offset scale: DimensionalityError, in both registry modes (F82) -/
+theorem C06_floordiv_refuses_other_dimension (R : Registry) (m : Mode) (a : Qty) (b : Operand)
+    (h : R.operandsMult a b = false) (hd : R.dimsDiffer a b = true) :
+    R.floordiv m a b = .error .dimensionality ∧ R.mod m a b = .error .dimensionality ∧
+      R.divmod m a b = .error .dimensionality := by
+  have ho : R.offsetFree m a b = .error .dimensionality := by
+    unfold Registry.offsetFree
+    rw [if_neg (by rw [h]; decide), if_pos hd]
   simp only [Registry.floordiv, Registry.mod, Registry.divmod, ho, and_self]
 
 /-- with multiplicative operands the three operators are unchanged by the guard -/
@@ -176,11 +187,11 @@ theorem C06_offsetFree_mult (R : Registry) (m : Mode) (a : Qty) (b : Operand)
 /-- in autoconvert mode both operands are taken to root units first: the result does not depend on the
     scale the temperatures are written in -/
 theorem C06_floordiv_autoconvert (R : Registry) (m : Mode) (a b a' b' : Qty)
-    (h : R.operandsMult a (.q b) = false) (hm : m.autoconvert = true)
+    (h : R.operandsMult a (.q b) = false) (hd : R.dimsDiffer a (.q b) = false) (hm : m.autoconvert = true)
     (ha : R.toRoot m a = .ok a') (hb : R.toRoot m b = .ok b') :
     R.offsetFree m a (.q b) = .ok (a', .q b') := by
   unfold Registry.offsetFree
-  rw [if_neg (by rw [h]; decide), hm, if_neg (by decide), ha]
+  rw [if_neg (by rw [h]; decide), if_neg (by rw [hd]; decide), hm, if_neg (by decide), ha]
   simp only [hb]
 
 end Pint.Props.C06
